@@ -414,6 +414,9 @@ def check(pid, tier, seed, only_random=False, extra=None):
     if st["partial"] == 0 or st["refused"] == 0:
         raise InternalError("no partial I/O or refusal was exercised (vacuous)")
 
+    # ---- 4b. the binding is real: a falsified copy of recorded executions must be rejected --------------
+    falsified = binding_selftest(batches, tag)
+
     # ---- 5. verdicts ----------------------------------------------------------
     script_of = {}
     for s in scripts:
@@ -478,7 +481,7 @@ def check(pid, tier, seed, only_random=False, extra=None):
                steps=st["steps"], steps_with_partial_io=st["partial"], steps_failing=st["refused"],
                steps_connection_errors=st["injected"], executions_by_transport=st["by_tp"], crashes=st["crashes"],
                model_mismatch_notes=mm, mismatches_tagged_for_other_properties=others, notes=notes,
-               known_findings=known, exhaustive=False)
+               known_findings=known, exhaustive=False, binding_selftest=falsified)
     if extra_cov:
         cov["establishment"] = extra_cov
         cov["traces_validated_against_impl"] += extra_cov.get("executions", 0)
@@ -562,6 +565,63 @@ def est_part(pid, tier, seed, rnd):
                stuck_runs=st["stuck"], crashes=st["crashes"], calls_with_wait=st["waits"], trace_lines=nlines,
                mismatches_tagged_for_other_properties=others)
     return violations, cov, notes
+
+
+def binding_selftest(batches, tag):
+    """Takes the first few thousand recorded lines, falsifies one observable in three of them (a delivered length, a counter,
+    the readiness of the descriptor) and requires the trace specification to object to each kind.  Guards against a trace
+    specification that has silently stopped comparing (vacuity of the conformance step)."""
+    if not batches:
+        return {}
+    src = batches[0][0]
+    lines = []
+    with open(src) as f:
+        for line in f:
+            lines.append(line)
+            if len(lines) >= 4000 and line.startswith('{"x":') and '"op":"X"' in line:
+                lines.pop()
+                break
+    done = {"len": [], "cnt": [], "rd": []}
+    used = set()
+    out = []
+    for line in lines:
+        o = None
+        if '"op":"r"' in line and any(len(v) < 6 for v in done.values()):
+            try:
+                o = json.loads(line)
+            except ValueError:
+                o = None
+        kind = None
+        if o and o["x"] not in used:
+            e = o["e"] - 1
+            if o["ret"] > 1 and len(done["len"]) < 6:
+                o["ret"] -= 1
+                kind = "len"
+            elif o["ret"] > 0 and len(done["cnt"]) < 6 and o["c"][e][0] >= 0:
+                o["c"][e][0] += 1
+                kind = "cnt"
+            elif o["ret"] == -1 and o["err"] == 11 and len(done["rd"]) < 6 and o["rd"][e] in (0, 1) and o["kr"][e] >= 0 \
+                    and o.get("ssl", [0, 0, 0, 0])[3] != -1:
+                o["rd"][e] = 1 - o["rd"][e]
+                kind = "rd"
+        if kind:
+            done[kind].append((o["x"], o["n"]))
+            used.add(o["x"])        # one falsification per execution: later mismatches of an execution may be suppressed
+            out.append(json.dumps(o, separators=(",", ":")) + "\n")
+        else:
+            out.append(line)
+    if sum(1 for v in done.values() if v) < 2:
+        return {"skipped": "too few suitable lines"}
+    path = "%s/%s/falsified.ndjson" % (vlib.RUN, tag)
+    with open(path, "w") as f:
+        f.writelines(out)
+    v, _ok, _r = conn.validate(path)
+    hit = set((m["x"], m["n"]) for m in v)
+    rejected = {k: sum(1 for xn in xs if xn in hit) for k, xs in done.items()}
+    missed = [k for k, xs in done.items() if xs and rejected[k] == 0]
+    if missed:
+        raise InternalError("the trace specification accepted falsified observations (%s): the conformance step is vacuous" % ", ".join(missed))
+    return {"falsified": {k: len(xs) for k, xs in done.items()}, "rejected": rejected}
 
 
 def replay(pid, path):
